@@ -587,6 +587,26 @@ func c13RestartBody(t *testing.T, s *sim.Scn, o *sim.Outcome) {
 			o.Fail("C13/invariant-C07-violated", "", -1, "whole node with restarts, "+f.name+": "+msg, "finalize in order (a repeat only by a later incarnation)")
 			return
 		}
+		// C07, liveness on a full node: every block up to `target` whose header and data the DA layer accepted before the
+		// final phase was half over has been scanned, applied and - 20 DA block times later - included
+		onDA := uint64(0)
+		for x := uint64(1); x <= target; x++ {
+			_, hok := ledger.AccH[x]
+			dok := true
+			if empty, err := ledger.BlockEmpty(x); err == nil && !empty {
+				_, dok = ledger.AccD[x]
+			}
+			if !hok || !dok {
+				break
+			}
+			onDA = x
+		}
+		if inc := f.lastIncluded; inc < onDA && reached[f.name] >= onDA {
+			o.Fail("C13/invariant-C07-violated", "C13/invariant-C07-violated/da-included-not-reached/"+f.name, -1,
+				fmt.Sprintf("%s (started %d times) applied blocks up to %d and both parts of every block up to %d are on the DA layer, but after a fault-free final phase of %v its DA-included height is %d", f.name, f.starts, reached[f.name], onDA, final, inc),
+				"once both parts of every block up to h are on the DA layer the node eventually reports h, including after a restart")
+			return
+		}
 		if reached[f.name] < target {
 			o.Fail("C13/invariant-C02-violated", "C13/invariant-C02-violated/not-converged-after-faults-stop/"+f.name, -1,
 				fmt.Sprintf("%s (started %d times) is at height %d after a fault-free final phase of %v with all nodes up, all links healed and a healthy DA layer; the proposer was at %d when the phase began (and is at %d now)", f.name, f.starts, reached[f.name], final, target, ah),
